@@ -201,7 +201,7 @@ func runC10(c *Ctx) {
 	c.L.Trust("go/types + go/ssa", "sync.Mutex: Lock/Unlock give mutual exclusion and happens-before", "rule code /verif/sa/rules/cache.go, /verif/sa/core/lockset.go")
 	c.L.Assumef("cache objects are created only by newCache and not copied; callers do not mutate key/value slices passed to Set")
 	c.L.Floor("C10.lockset", 25)
-	c.L.Floor("C10.atomic-counters", 6)
+	c.L.Floor("C10.atomic-counters", 3)
 	c.L.Floor("C10.lock-balance", 5)
 	c.L.Floor("C10.item-immutable", 2)
 	c.L.Floor("C10.conf-immutable", 4)
@@ -344,14 +344,14 @@ func runC09(c *Ctx) {
 	if ci == nil {
 		return
 	}
-	c.L.Floor("C09.link-guard", 4)
+	c.L.Floor("C09.link-guard", 2)
 	c.L.Floor("C09.accounting.delete", 2)
 	c.L.Floor("C09.accounting.insert", 1)
 	c.L.Floor("C09.accounting.clear", 3)
 	c.L.Floor("C09.eviction", 4)
 	c.L.Floor("C09.callback-unlocked", 1)
 	c.L.Floor("C09.no-stale-after-relock", 1)
-	c.L.Floor("C09.refusal-pure", 2)
+	c.L.Floor("C09.refusal-pure", 1)
 	c09Config(c)
 	c.L.Floor("C09.set-result", 1)
 	c.L.Floor("C09.get-counts", 2)
@@ -743,7 +743,145 @@ func runC09(c *Ctx) {
 			c.check(okv, "C09.get-result", get, "Get returns c.items[key].value", ret, "the value returned belongs to the entry stored under the requested key")
 		}
 	}
-	_ = del
+	c09Pairing(c, ci, set, get, del)
+}
+
+// c09Pairing: explicit forms of what the instance floors used to catch by
+// accident.  (a) Every removal of a live entry from the map — delete in Del,
+// replacement in Set — unlinks that entry from the usage list under
+// conf.EnableLRU, and Get re-appends only what it has just unlinked; (b) the
+// eviction loop is reachable only with LRU on: a full cache without LRU is
+// refused before it; (c) Stats reports the four observables from the fields
+// that hold them.
+func c09Pairing(c *Ctx, ci *cacheInfo, set, get, del *ssa.Function) {
+	c.L.Floor("C09.unlink-paired", 3)
+	c.L.Floor("C09.stats", 4)
+	unlinkOf := func(fn *ssa.Function, item ssa.Value) *ssa.Call {
+		for _, cl := range core.CallsTo(fn, core.ModPath+"/cache.listUnlink") {
+			call := cl.(*ssa.Call)
+			if isItemLink(call.Call.Args[0]) && sameValue(itemOfLink(call.Call.Args[0]), item) {
+				return call
+			}
+		}
+		return nil
+	}
+	if del != nil {
+		n := 0
+		core.EachInstr(del, func(in ssa.Instruction) {
+			call, ok := in.(*ssa.Call)
+			if !ok {
+				return
+			}
+			if bi, isB := call.Call.Value.(*ssa.Builtin); !isB || bi.Name() != "delete" {
+				return
+			}
+			n++
+			// the item removed: the lookup of the same key in this function
+			var item ssa.Value
+			core.EachInstr(del, func(in2 ssa.Instruction) {
+				if ex, ok := in2.(*ssa.Extract); ok && ex.Index == 0 && fromMapLookup(ex) && sameKey(lookupKey(ex), call.Call.Args[1]) {
+					item = ex
+				}
+			})
+			var u *ssa.Call
+			if item != nil {
+				u = unlinkOf(del, item)
+			}
+			c.check(u != nil && sameRegion(u, call) && guardedByConfFlag(u, "EnableLRU", true), "C09.unlink-paired", del,
+				"Del: delete(c.items, key) is paired with listUnlink(&item.used) under EnableLRU", call,
+				"a deleted entry that stays in the usage list is later picked as eviction victim: its size is subtracted twice and a live key may be deleted")
+		})
+		if n == 0 {
+			c.undecided("C09.unlink-paired", del, "delete(c.items, key) in Del", nil, "not found")
+		}
+	}
+	if set != nil {
+		// replacement: under `exists` of the lookup of the stored key there is an unlink of the old item
+		core.EachInstr(set, func(in ssa.Instruction) {
+			mu, ok := in.(*ssa.MapUpdate)
+			if !ok {
+				return
+			}
+			if _, _, isItems := loadedCacheField(mu.Map); !isItems {
+				return
+			}
+			var item ssa.Value
+			core.EachInstr(set, func(in2 ssa.Instruction) {
+				if ex, ok := in2.(*ssa.Extract); ok && ex.Index == 0 && fromMapLookup(ex) && sameKey(lookupKey(ex), mu.Key) && sameRegion(ex, mu) {
+					item = ex
+				}
+			})
+			var u *ssa.Call
+			if item != nil {
+				u = unlinkOf(set, item)
+			}
+			c.check(u != nil && guardedByLookupOK(u, item) && guardedByConfFlag(u, "EnableLRU", true) && core.MayFollow(u, mu), "C09.unlink-paired", set,
+				"Set: a replaced entry is unlinked from the usage list (under exists && EnableLRU) before the new item is stored", mu,
+				"the replaced item would stay in the list: it is evicted later although it is no longer in the map")
+		})
+		// the eviction loop runs only with LRU on
+		for h := range core.LoopHeads(set) {
+			okRef := false
+			for _, ret := range core.Returns(set) {
+				b, isK := core.ConstBool(ret.Results[0])
+				if isK && !b && guardedByConfFlag(ret, "EnableLRU", false) && !core.Reaches(h, ret.Block()) {
+					okRef = true
+				}
+			}
+			c.check(okRef, "C09.refusal-pure", set, "without LRU a Set that does not fit returns false before the eviction loop", h.Instrs[0],
+				"with LRU off the usage list is empty: entering the eviction loop dereferences the list sentinel as an item")
+		}
+	}
+	if get != nil {
+		for _, cl := range core.CallsTo(get, core.ModPath+"/cache.listAppend") {
+			ap := cl.(*ssa.Call)
+			ok := false
+			if isItemLink(ap.Call.Args[0]) {
+				if u := unlinkOf(get, itemOfLink(ap.Call.Args[0])); u != nil && core.Dominates(u, ap) {
+					ok = true
+				}
+			}
+			c.check(ok, "C09.unlink-paired", get, "Get: the item re-appended was unlinked first", ap, "appending a node that is still linked corrupts the list (two predecessors point at it)")
+		}
+	}
+	if st := c.fn("cache", "cache.Stats"); st != nil {
+		want := map[string]string{"Count": "len(items)", "Size": "size", "Hit": "hit", "Miss": "miss"}
+		got := map[string]string{}
+		core.EachInstr(st, func(in ssa.Instruction) {
+			s2, ok := in.(*ssa.Store)
+			if !ok {
+				return
+			}
+			fa, ok := s2.Addr.(*ssa.FieldAddr)
+			if !ok || core.NamedOf(fa.X.Type()) != "Stats" {
+				return
+			}
+			v := s2.Val
+			if cv, isCv := v.(*ssa.Convert); isCv {
+				v = cv.X
+			}
+			switch x := v.(type) {
+			case *ssa.Call:
+				switch core.CalleeName(&x.Call) {
+				case "builtin.len":
+					if f, _, ok := loadedCacheField(x.Call.Args[0]); ok {
+						got[core.FieldName(fa)] = "len(" + f + ")"
+					}
+				case "sync/atomic.LoadInt32":
+					if f, _, ok := cacheField(x.Call.Args[0]); ok {
+						got[core.FieldName(fa)] = f
+					}
+				}
+			case *ssa.UnOp:
+				if f, _, ok := cacheField(x.X); ok {
+					got[core.FieldName(fa)] = f
+				}
+			}
+		})
+		for _, k := range []string{"Count", "Size", "Hit", "Miss"} {
+			c.check(got[k] == want[k], "C09.stats", st, "Stats()."+k+" == c."+want[k], nil, "found "+got[k])
+		}
+	}
 }
 
 // ---- small pattern helpers ----
